@@ -1,9 +1,129 @@
 import Driver.Util
+import Lattigo.Model.RGSW
 
+/-
+  Line-protocol handler of property C20 (RGSW external products, blind rotation).
+  Every line is self-contained: `key=value` tokens after the op name.
+-/
 namespace Driver.C20
-open Driver
+open Driver Lattigo Lattigo.RGSW
 
-/-- stub: replaced by the property's real handler -/
-def handle (_toks : List String) : String := badOp
+def parsePolys? (s : String) : Option (List (List (List Nat))) :=
+  if s == "-" then some [] else (s.splitOn "/").mapM parseMat?
+
+def parseIVecs? (s : String) : Option (List (List Int)) :=
+  if s == "-" then some [] else (s.splitOn "/").mapM parseIVec?
+
+def showPolys (ps : List (List (List Nat))) : String :=
+  if ps.isEmpty then "-" else "/".intercalate (ps.map showMat)
+
+def showNats (v : List Nat) : String := showVec v
+
+def getPar (toks : List String) : Option Par := do
+  let n ← (kv? toks "n") >>= parseNat?
+  let q ← (kv? toks "Q") >>= parseVec?
+  let p ← (kv? toks "P") >>= parseVec?
+  let w ← (kv? toks "w") >>= parseNat?
+  pure { qsQ := q, qsP := p, n := n, w := w }
+
+def mkPoly (qs : List Nat) (rows : List (List Nat)) : RPoly := { qs := qs, c := rows }
+
+/-- four lists of QP polynomials `x00 x01 x10 x11` → an RGSW ciphertext -/
+def getRGSW (toks : List String) (pre : String) (qs : List Nat) : Option (Ct RPoly) := do
+  let p00 ← (kv? toks (pre ++ "00")) >>= parsePolys?
+  let p01 ← (kv? toks (pre ++ "01")) >>= parsePolys?
+  let p10 ← (kv? toks (pre ++ "10")) >>= parsePolys?
+  let p11 ← (kv? toks (pre ++ "11")) >>= parsePolys?
+  pure { v0 := (p00.zip p01).map fun (a, b) => (mkPoly qs a, mkPoly qs b),
+         v1 := (p10.zip p11).map fun (a, b) => (mkPoly qs a, mkPoly qs b) }
+
+def showRGSW (c : Ct RPoly) : String :=
+  showPolys (c.v0.map fun r => r.1.c) ++ "|" ++ showPolys (c.v0.map fun r => r.2.c) ++ "|" ++
+  showPolys (c.v1.map fun r => r.1.c) ++ "|" ++ showPolys (c.v1.map fun r => r.2.c)
+
+def showCt (c : RPoly × RPoly) : String := showPolys [c.1.c, c.2.c]
+
+/-- lift the Q rows of a plaintext to QP (the P rows are never touched by the gadget vector) -/
+def liftQ (p : Par) (rows : List (List Nat)) : RPoly :=
+  { qs := p.qsQP, c := rows ++ p.qsP.map fun _ => List.replicate p.n 0 }
+
+def hEnc (toks : List String) : Option String := do
+  let p ← getPar toks
+  let mode ← kv? toks "mode"
+  let s ← (kv? toks "s") >>= parseIVec?
+  let g ← (kv? toks "g") >>= parseMat?
+  let a0 ← (kv? toks "a0") >>= parsePolys?
+  let e0 ← (kv? toks "e0") >>= parseIVecs?
+  let a1 ← (kv? toks "a1") >>= parsePolys?
+  let e1 ← (kv? toks "e1") >>= parseIVecs?
+  let qs := p.qsQP
+  let sP := RPoly.ofInts qs s
+  let smp0 := (a0.zip e0).map fun (a, e) => (mkPoly qs a, RPoly.ofInts qs e)
+  let smp1 := (a1.zip e1).map fun (a, e) => (mkPoly qs a, RPoly.ofInts qs e)
+  let ct := encryptR p (mode == "rep") sP (liftQ p g) smp0 smp1
+  pure (showVec p.shape ++ "|" ++ showRGSW ct)
+
+def getCt (toks : List String) (key : String) (qs : List Nat) : Option (RPoly × RPoly) := do
+  let c ← (kv? toks key) >>= parsePolys?
+  match c with
+  | [a, b] => pure (mkPoly qs a, mkPoly qs b)
+  | _ => none
+
+def hExtProd (toks : List String) : Option String := do
+  let p ← getPar toks
+  let inplace ← (kv? toks "inplace") >>= parseNat?
+  let ct ← getCt toks "c" p.qsQ
+  let rg ← getRGSW toks "r" p.qsQP
+  let old ← getCt toks "old" p.qsQ
+  let out := if inplace == 1 then extProdR p ct rg else extProdOutOfPlaceR p ct rg old
+  pure (showCt out)
+
+def hAdd (toks : List String) : Option String := do
+  let p ← getPar toks
+  let a ← getRGSW toks "a" p.qsQP
+  let b ← getRGSW toks "b" p.qsQP
+  pure (showRGSW (Ct.add a b))
+
+def hMulXm1 (toks : List String) (thenAdd : Bool) : Option String := do
+  let p ← getPar toks
+  let alpha ← (kv? toks "alpha") >>= parseNat?
+  let a ← getRGSW toks "a" p.qsQP
+  let x := xPowMinusOne p alpha
+  if thenAdd then do
+    let b ← getRGSW toks "b" p.qsQP
+    pure (showRGSW (Ct.mulByThenAdd x a b))
+  else pure (showRGSW (Ct.mulBy x a))
+
+def hAddPt (toks : List String) : Option String := do
+  let p ← getPar toks
+  let m ← (kv? toks "m") >>= parseMat?
+  let a ← getRGSW toks "a" p.qsQP
+  pure (showRGSW (Ct.addPlain a ((pgList p).map fun pg => pg * liftQ p m)))
+
+def hEp32 (toks : List String) : Option String := do
+  let q ← (kv? toks "q") >>= parseNat?
+  let mrc ← (kv? toks "mrc") >>= parseNat?
+  let r0 ← (kv? toks "r0") >>= parseMat?
+  let r1 ← (kv? toks "r1") >>= parseMat?
+  let c ← (kv? toks "c") >>= parseMat?
+  let cT := RPoly.transpose c
+  let o0 := (List.zip (RPoly.transpose r0) cT).map fun (rs, cs) => slot32 q mrc rs cs
+  let o1 := (List.zip (RPoly.transpose r1) cT).map fun (rs, cs) => slot32 q mrc rs cs
+  pure (showVec o0 ++ "|" ++ showVec o1)
+
+def handle (toks : List String) : String :=
+  let r : Option String :=
+    match toks with
+    | "rgsw_enc" :: rest => hEnc rest
+    | "extprod" :: rest => hExtProd rest
+    | "rgsw_add" :: rest => hAdd rest
+    | "rgsw_mulxm1" :: rest => hMulXm1 rest false
+    | "rgsw_mulxm1add" :: rest => hMulXm1 rest true
+    | "rgsw_addpt" :: rest => hAddPt rest
+    | "ep32raw" :: rest => hEp32 rest
+    | "newplaintext_badtype" :: _ => some "err"
+    | "addlazy_badtype" :: _ => some "panic"
+    | _ => none
+  r.getD badOp
 
 end Driver.C20
